@@ -14,12 +14,12 @@ import (
 )
 
 type c18List struct {
-	Name    string
-	CIDRs   []string
-	VIP     string
-	PeerIP  string // allowed source
-	OutIP   string // disallowed source ("" = none exists)
-	InAddr  []byte
+	Name   string
+	CIDRs  []string
+	VIP    string
+	PeerIP string // allowed source
+	OutIP  string // disallowed source ("" = none exists)
+	InAddr []byte
 }
 
 var c18Lists = []c18List{
